@@ -106,9 +106,15 @@ UINT16 = _U16
 class Inexact(Exception):
     """The order-type abstraction is not exact for this code (or the code has a shape the engine does not model)."""
 
-    def __init__(self, msg, site=None):
+    def __init__(self, msg, site=None, kind='shape', context=None):
         Exception.__init__(self, msg)
         self.site = site
+        # kind 'arithmetic': the code computes with its inputs (arithmetic / bit operator, negation, increment, value-changing
+        # conversion, library function without a body such as abs) -- the construct that a comparison-only contract forbids;
+        # kind 'shape': a construct the engine simply does not model (switch, try/catch, object construction, ...).
+        self.kind = kind
+        # where it happened: ('store', field name) | ('local', name) | ('branch',) | ('return',) | ('stmt',) | None
+        self.context = context
 
 
 def _plain_type(t):
@@ -374,15 +380,16 @@ _VALUE_PRESERVING_CASTS = ('LValueToRValue', 'NoOp', 'ConstructorConversion', 'U
 
 
 class _Compiler:
-    def __init__(self, fb, fn, atoms, as_callee, depth, cache):
+    def __init__(self, fb, fn, atoms, as_callee, depth, cache, same_this=False):
         self.fb, self.fn, self.atoms, self.as_callee, self.depth, self.cache = fb, fn, atoms, as_callee, depth, cache
+        self.same_this = same_this      # callee invoked on the caller's own object: its fields are the caller's fields
         self.p = Program(fn)
         self.param_by_d = {}
 
-    def fail(self, nid, why):
+    def fail(self, nid, why, kind='shape'):
         fn = self.fn
         txt = fn.expr(nid) if nid is not None else ''
-        raise Inexact('%s: %s%s' % (fn.q, why, (': `%s`' % txt[:100]) if txt else ''), fn.loc(nid) if nid is not None else fn.site)
+        raise Inexact('%s: %s%s' % (fn.q, why, (': `%s`' % txt[:100]) if txt else ''), fn.loc(nid) if nid is not None else fn.site, kind)
 
     # ---------------------------------------------------------------- symbols
     def _add_sym(self, name, dom, nid):
@@ -422,7 +429,7 @@ class _Compiler:
             except ValueError:
                 self.fail(nid, 'unparsable constant')
             return self._const(v, _plain_type(t) == 'bool')
-        if self.atoms is not None and not self.as_callee and k in ('call', 'member', 'var', 'index', 'unop', 'cast'):
+        if self.atoms is not None and k in ('call', 'member', 'var', 'index', 'unop', 'cast'):
             a = self.atoms(fn, n)
             if a is not None:
                 name, dom = (a, None) if isinstance(a, str) else a
@@ -444,7 +451,7 @@ class _Compiler:
                     # enum <-> integer conversions etc.: the rule must supply atoms with explicit ranges for those
                     self.fail(nid, 'integral conversion between types of unknown range (%s -> %s)' % (src, t))
                 if not (dt[0] <= ds[0] and ds[1] <= dt[1]):
-                    self.fail(nid, 'conversion %s -> %s may change the value (abstraction would be inexact)' % (src, t))
+                    self.fail(nid, 'conversion %s -> %s may change the value (abstraction would be inexact)' % (src, t), 'arithmetic')
                 return self.expr(n['sub'])
             if ck == 'IntegralToBoolean':
                 return ('tobool', self.expr(n['sub']))
@@ -468,8 +475,8 @@ class _Compiler:
             self.fail(nid, 'reference to %s %s without a constant value' % (vk, n.get('q', n.get('name'))))
         if k == 'member':
             if n.get('field') and fn.is_this_member(nid):
-                if self.as_callee:
-                    self.fail(nid, 'helper reads a member of its own object')
+                if self.as_callee and not self.same_this:
+                    self.fail(nid, 'helper reads a member of another object')
                 dom = domain_of_type(t, True)
                 if dom is None:
                     self.fail(nid, 'member of non-integer type read')
@@ -484,11 +491,11 @@ class _Compiler:
                 return ('and', self.expr(n['lhs']), self.expr(n['rhs']))
             if op == '||':
                 return ('or', self.expr(n['lhs']), self.expr(n['rhs']))
-            self.fail(nid, 'arithmetic/bit operator %s on an input (not comparison-only)' % op)
+            self.fail(nid, 'arithmetic/bit operator %s on an input (not comparison-only)' % op, 'arithmetic')
         if k == 'unop':
             if n['op'] == '!':
                 return ('not', self.expr(n['sub']))
-            self.fail(nid, 'unary operator %s on an input (not comparison-only)' % n['op'])
+            self.fail(nid, 'unary operator %s on an input (not comparison-only)' % n['op'], 'arithmetic')
         if k == 'condop':
             return ('ite', self.expr(n['cond']), self.expr(n['then']), self.expr(n['else']))
         if k == 'construct':
@@ -501,42 +508,135 @@ class _Compiler:
             self.fail(nid, 'assignment used as a value')
         self.fail(nid, 'expression of kind %s' % k)
 
+    def _helper(self, nid, g, same_this, atoms):
+        """compile (cached) the body of callee g as a helper"""
+        key = (g.usr, g.full, same_this, atoms is not None)
+        if key in self.cache:
+            sub = self.cache[key]
+            if sub is None:
+                self.fail(nid, 'recursive helper')
+            return sub
+        self.cache[key] = None
+        try:
+            sub = _Compiler(self.fb, g, atoms, True, self.depth + 1, self.cache, same_this).compile()
+        except Inexact as e:
+            del self.cache[key]
+            fn = self.fn
+            raise Inexact('%s: in helper called here (`%s`): %s' % (fn.q, fn.expr(nid)[:80], e), e.site or fn.loc(nid), e.kind)
+        self.cache[key] = sub
+        return sub
+
+    def _merge(self, sub):
+        p = self.p
+        p.consts |= sub.consts
+        p.throws = p.throws or sub.throws
+        p.fields_written |= sub.fields_written
+        for name, dom in sub.int_syms.items():
+            old = p.int_syms.get(name)
+            if old is not None and old != dom:
+                raise Inexact('%s: symbol %s used with two different value ranges' % (self.fn.q, name), self.fn.site)
+            p.int_syms[name] = dom
+        p.bool_syms |= sub.bool_syms
+        p.callees.append(sub)
+
+    def _functor(self, nid, anid):
+        """Program of the binary predicate passed as argument anid (functor object or capture-less lambda)."""
+        fn = self.fn
+        a = fn.sn(anid)
+        hops = 0
+        while a is not None and a.get('k') in ('construct', 'cast') and hops < 4:
+            hops += 1
+            if a.get('k') == 'construct' and len(a.get('args', [])) == 1:
+                a = fn.sn(a['args'][0])
+            elif a.get('k') == 'cast':
+                a = fn.sn(a['sub'])
+            else:
+                break
+        g = None
+        if a is not None and a.get('k') == 'lambda':
+            if a.get('captures'):
+                self.fail(nid, 'comparator lambda with captures')
+            g = self.fb.lambda_fn(fn, a)
+        else:
+            t = _plain_type((fn.sn(anid) or {}).get('t', ''))
+            cands = [f for f in self.fb.fns(t + '::operator()') if len(f.params) == 2 and f.has_cfg]
+            g = cands[0] if cands else None
+        if g is None:
+            self.fail(nid, 'comparator argument whose call operator is not in the fact base')
+        sub = self._helper(nid, g, False, None)
+        if sub.fields_written or sub.throws or any(k == 'obj' for (_n, k, _d) in sub.params):
+            self.fail(nid, 'comparator %s is not a pure predicate over two integers' % g.q)
+        self._merge(sub)
+        return sub
+
+    def _builtin(self, nid, n):
+        """std::min / std::max / std::clamp over integers are comparison-only:  max(a, b) == (a < b) ? b : a  etc."""
+        q = n.get('q')
+        args = [a for a in n.get('args', []) if a is not None]
+        if q not in ('std::max', 'std::min', 'std::clamp') or n.get('recv') is not None:
+            return None
+        if domain_of_type(n.get('t', ''), True) in (None, 'bool'):
+            self.fail(nid, '%s over a non-integer type' % q)
+        want = 3 if q == 'std::clamp' else 2
+        if len(args) not in (want, want + 1):
+            self.fail(nid, '%s with %d arguments (initializer-list form is not modelled)' % (q, len(args)))
+        vals = [self.expr(a) for a in args[:want]]
+        if len(args) == want + 1:
+            sub = self._functor(nid, args[want])
+            less = lambda x, y: ('call', sub, [x, y], False)
+        else:
+            less = lambda x, y: ('cmp', '<', x, y)
+        if q == 'std::max':
+            a, b = vals
+            return ('ite', less(a, b), b, a)
+        if q == 'std::min':
+            a, b = vals
+            return ('ite', less(b, a), b, a)
+        v, lo, hi = vals
+        return ('ite', less(v, lo), lo, ('ite', less(hi, v), hi, v))
+
     def call(self, nid, n):
         fn = self.fn
         if 'u' not in n:
             self.fail(nid, 'unresolved call')
         if self.depth >= 6:
             self.fail(nid, 'helper call nesting too deep')
+        b = self._builtin(nid, n)
+        if b is not None:
+            return b
         cands = [g for g in self.fb.by_usr.get(n['u'], []) if g.has_cfg]
         if not cands:
-            self.fail(nid, 'call to %s (no body in the fact base; e.g. abs/arithmetic helpers make the abstraction inexact)' % n.get('q'))
+            self.fail(nid, 'call to %s, a library function that computes with its arguments (no comparison-only body; e.g. abs or '
+                      'arithmetic helpers make the abstraction inexact)' % n.get('q'), 'arithmetic')
         g = cands[0]
-        key = g.usr
-        if key in self.cache:
-            sub = self.cache[key]
-            if sub is None:
-                self.fail(nid, 'recursive helper')
-        else:
-            self.cache[key] = None
-            try:
-                sub = _Compiler(self.fb, g, None, True, self.depth + 1, self.cache).compile()
-            except Inexact as e:
-                del self.cache[key]
-                raise Inexact('%s: in helper called here (`%s`): %s' % (fn.q, fn.expr(nid)[:80], e), e.site or fn.loc(nid))
-            self.cache[key] = sub
-        if sub.fields_written or sub.throws:
-            self.fail(nid, 'helper %s has effects' % g.q)
+        # receiver: none (free/static function), a stateless temporary functor (`id_order{}(a, b)`), or this (a private helper of
+        # the same object, whose field accesses are then the caller's)
+        same_this = False
+        if n.get('recv') is not None:
+            r = fn.sn(n['recv'])
+            if r is not None and r.get('k') == 'this' and (not self.as_callee or self.same_this):
+                same_this = True
         args = list(n.get('args', []))
-        if len(args) != len(sub.params):
+        if len(args) != len(g.params):
             self.fail(nid, 'argument count mismatch for %s' % g.q)
+        # atoms stay meaningful inside the helper only if it receives the caller's object parameters in the same positions
+        atoms = self.atoms
+        if atoms is not None:
+            for i, prm in enumerate(g.params):
+                if domain_of_type(prm['tC']) is None:
+                    rv = fn.root_var(args[i]) if args[i] is not None else None
+                    same = (rv is not None and rv[0] == 'var' and i < len(fn.params) and fn.params[i]['d'] == rv[1])
+                    if not same:
+                        atoms = None
+                        break
+        sub = self._helper(nid, g, same_this, atoms)
+        if sub.fields_written and not same_this:
+            self.fail(nid, 'helper %s writes members of another object' % g.q)
         cargs = []
         for a, (pn, kind, _d) in zip(args, sub.params):
-            if kind == 'obj':
-                self.fail(nid, 'helper %s takes an object parameter' % g.q)
-            cargs.append(self.expr(a))
-        self.p.consts |= sub.consts
-        self.p.callees.append(sub)
-        return ('call', sub, cargs)
+            cargs.append(('opaque',) if kind == 'obj' else self.expr(a))
+        self._merge(sub)
+        return ('call', sub, cargs, same_this)
 
     # ---------------------------------------------------------------- statements
     def stmt(self, nid):
@@ -564,11 +664,11 @@ class _Compiler:
             return ('seq', out)
         if k == 'assign':
             if n['op'] != '=':
-                self.fail(nid, 'compound assignment %s (arithmetic)' % n['op'])
+                self.fail(nid, 'compound assignment %s (arithmetic)' % n['op'], 'arithmetic')
             l = fn.sn(n['lhs'])
             if l is not None and l.get('k') == 'var' and l.get('vk') == 'local':
                 return ('store', ('local', l['d']), self.expr(n['rhs']))
-            if l is not None and l.get('k') == 'member' and l.get('field') and fn.is_this_member(l['id']) and not self.as_callee:
+            if l is not None and l.get('k') == 'member' and l.get('field') and fn.is_this_member(l['id']) and (not self.as_callee or self.same_this):
                 if domain_of_type(l.get('t'), True) is None:
                     self.fail(nid, 'assignment to a member of non-integer type')
                 self.p.fields_written.add(l['name'])
@@ -576,10 +676,14 @@ class _Compiler:
             self.fail(nid, 'assignment to something that is not a local or an integer member of this')
         if k == 'autodtor':
             return None
+        if k == 'call' and 'u' in n and any(g.has_cfg for g in self.fb.by_usr.get(n['u'], [])):
+            return ('expr', self.call(nid, n))       # helper called for its effects (may throw / update this)
         if k in ('call', 'construct', 'new', 'delete', 'unop'):
             if k == 'unop' and n['op'] == '!':
                 self.expr(nid)
                 return None
+            if k == 'unop' and n['op'] in ('++', '--'):
+                self.fail(nid, 'increment/decrement (arithmetic)', 'arithmetic')
             self.fail(nid, 'statement with unknown effect')
         # value-less expression element (callee reference of a call, `(void)x;`, ...): harmless iff nothing inside it
         # can have an effect
@@ -590,16 +694,34 @@ class _Compiler:
                 self.fail(nid, 'expression statement with a possible effect')
         return None
 
+    def _context(self, nid):
+        fn = self.fn
+        n = fn.sn(nid, casts=False) or {}
+        k = n.get('k')
+        if k == 'return':
+            return ('return',)
+        if k == 'assign':
+            l = fn.sn(n['lhs'])
+            if l is not None and l.get('k') == 'member':
+                return ('store', l.get('name'))
+            if l is not None and l.get('k') == 'var':
+                return ('local', l.get('name'))
+        if k == 'decl':
+            return ('local', ', '.join(v['name'] for v in n['vars']))
+        return ('stmt',)
+
     def compile(self):
         fn, p = self.fn, self.p
         if not fn.has_cfg:
             raise Inexact('%s: no CFG' % fn.q, fn.site)
+        if fn.tries:
+            raise Inexact('%s: try/catch is not modelled' % fn.q, fn.site)
         for i, prm in enumerate(fn.params):
             name = prm['name'] or 'arg%d' % i
             dom = domain_of_type(prm['tC'])
             kind = 'b' if dom == 'bool' else ('i' if dom is not None else 'obj')
             p.params.append((name, kind, dom))
-            self.param_by_d[prm['d']] = (name, kind, dom)
+            self.param_by_d[prm['d']] = (('@' + name) if self.as_callee else name, kind, dom)
             if kind == 'i' and not self.as_callee:
                 p.int_syms[name] = dom
             elif kind == 'b' and not self.as_callee:
@@ -611,7 +733,12 @@ class _Compiler:
             for e in b['elems']:
                 if e in pm:
                     continue      # sub-expression of a later element / terminator: evaluated there
-                s = self.stmt(e)
+                try:
+                    s = self.stmt(e)
+                except Inexact as ex:
+                    if ex.context is None:
+                        ex.context = self._context(e)
+                    raise
                 if s is None:
                     continue
                 if s[0] == 'seq':
@@ -623,7 +750,12 @@ class _Compiler:
             if 'cond' in b and len(succs) == 2:
                 if b.get('termcls') == 'SwitchStmt':
                     self.fail(b['cond'], 'switch statement')
-                br = self.expr(b['cond'])
+                try:
+                    br = self.expr(b['cond'])
+                except Inexact as ex:
+                    if ex.context is None:
+                        ex.context = ('branch',)
+                    raise
             elif len(succs) > 1:
                 self.fail(b.get('term'), 'multi-way branch (%s)' % b.get('termcls'))
             p.blocks[bid] = {'stmts': stmts, 'br': br, 'succs': succs}
@@ -697,6 +829,8 @@ class Outcome:
 
 
 def _to_int(v):
+    if v[0] not in ('i', 'b'):
+        raise Inexact('a value-less (void) expression is used as a value')
     return ('i', int(v[1])) if v[0] == 'b' else v
 
 
@@ -708,11 +842,19 @@ def _cmp(world, op, a, b):
 def _truth(world, v):
     if v[0] == 'b':
         return v[1]
+    if v[0] != 'i':
+        raise Inexact('a value-less (void) expression is used as a condition')
     return world.cmp('!=', v[1], 0)
 
 
 class _Frame:
-    __slots__ = ('world', 'binding', 'mem', 'depth')
+    __slots__ = ('world', 'binding', 'mem', 'fields', 'depth')
+
+
+class _Thrown(Exception):
+    def __init__(self, tt):
+        Exception.__init__(self, tt)
+        self.tt = tt
 
 
 def _sym_value(fr, name, kind):
@@ -740,10 +882,12 @@ def _eval(e, fr):
         return _sym_value(fr, e[1], 'b')
     if tag == 'load':
         loc = e[1]
+        if loc[0] == 'field':
+            if loc[1] in fr.fields:
+                return fr.fields[loc[1]]
+            return _sym_value(fr, 'this.' + loc[1], e[2])
         if loc in fr.mem:
             return fr.mem[loc]
-        if loc[0] == 'field':
-            return _sym_value(fr, 'this.' + loc[1], e[2])
         raise Inexact('read of a local before its initialisation')
     if tag == 'cmp':
         return ('b', _cmp(fr.world, e[1], _eval(e[2], fr), _eval(e[3], fr)))
@@ -758,23 +902,37 @@ def _eval(e, fr):
     if tag == 'ite':
         return _eval(e[2], fr) if _truth(fr.world, _eval(e[1], fr)) else _eval(e[3], fr)
     if tag == 'call':
-        sub, args = e[1], e[2]
-        vals = [_eval(a, fr) for a in args]
-        binding = {}
-        for (pn, kind, _d), v in zip(sub.params, vals):
+        sub, args, same_this = e[1], e[2], e[3]
+        binding = dict(fr.binding)          # renamings of atoms / field symbols stay valid inside the helper
+        for (pn, kind, _d), a in zip(sub.params, args):
+            if kind == 'obj':
+                continue
+            v = _eval(a, fr)
             if kind == 'b' and v[0] == 'i':
                 v = ('b', _truth(fr.world, v))
-            binding[pn] = v
-        out = _run(sub, fr.world, binding, fr.depth + 1)
-        if out.kind != 'return' or out.value is None:
-            raise Inexact('helper %s did not return a value' % sub.name)
-        return out.value
+            binding['@' + pn] = v             # helper parameters live in their own name space
+        out = _run(sub, fr.world, binding, fr.depth + 1, fr.fields if same_this else {})
+        if out.kind == 'return' and out.value is not None:
+            return out.value
+        return ('void',)
     raise Inexact('unknown IR node %r' % (tag,))
 
 
-def _run(prog, world, binding, depth, max_steps=4096):
+def _run(prog, world, binding, depth, fields=None, max_steps=4096):
+    """depth 0: returns an Outcome for every way of leaving (return / throw / end); helpers (depth > 0) let a throw propagate
+    as _Thrown to the outermost activation."""
+    if depth == 0:
+        fields = {}
+        try:
+            return _run_body(prog, world, binding, depth, fields, max_steps)
+        except _Thrown as t:
+            return Outcome('throw', None, dict(fields), [], t.tt)
+    return _run_body(prog, world, binding, depth, fields, max_steps)
+
+
+def _run_body(prog, world, binding, depth, fields, max_steps):
     fr = _Frame()
-    fr.world, fr.binding, fr.mem, fr.depth = world, binding, {}, depth
+    fr.world, fr.binding, fr.mem, fr.fields, fr.depth = world, binding, {}, fields, depth
     if depth > 12:
         raise Inexact('helper recursion too deep')
     bid = prog.entry
@@ -782,7 +940,7 @@ def _run(prog, world, binding, depth, max_steps=4096):
     steps = 0
 
     def store_out():
-        return {loc[1]: v for loc, v in fr.mem.items() if loc[0] == 'field'}
+        return dict(fr.fields)
 
     while True:
         steps += 1
@@ -794,13 +952,23 @@ def _run(prog, world, binding, depth, max_steps=4096):
         path.append(bid)
         for s in blk['stmts']:
             if s[0] == 'store':
-                fr.mem[s[1]] = _eval(s[2], fr)
+                v = _eval(s[2], fr)
+                if v[0] not in ('i', 'b'):
+                    raise Inexact('%s: a value-less expression is stored' % prog.name)
+                if s[1][0] == 'field':
+                    fr.fields[s[1][1]] = v
+                else:
+                    fr.mem[s[1]] = v
+            elif s[0] == 'expr':
+                _eval(s[1], fr)
             elif s[0] == 'return':
                 v = _eval(s[1], fr) if s[1] is not None else None
                 if v is not None and prog.ret_bool and v[0] == 'i':
                     v = ('b', _truth(world, v))
                 return Outcome('return', v, store_out(), path)
             elif s[0] == 'throw':
+                if depth > 0:
+                    raise _Thrown(s[1])
                 return Outcome('throw', None, store_out(), path, s[1])
         if bid == prog.exit or not blk['succs']:
             return Outcome('end', None, store_out(), path)
